@@ -765,3 +765,24 @@ macro_rules! ensure_p {
         }
     };
 }
+
+
+/// Histories in which an operation is issued twice in a row (the same request again: a retry, a double click, a relayer
+/// resubmitting): for every entry of `reps` a copy of the operation at that (wrapped) position is inserted right after it.
+pub fn with_repeats<T: Clone>(mut ops: Vec<T>, reps: &[u16]) -> Vec<T> {
+    for r in reps {
+        if ops.is_empty() {
+            break;
+        }
+        let i = *r as usize % ops.len();
+        let c = ops[i].clone();
+        ops.insert(i + 1, c);
+    }
+    ops
+}
+
+/// strategy for the `reps` argument of `with_repeats`: mostly none, sometimes one to three repeats
+pub fn repeats() -> proptest::strategy::BoxedStrategy<Vec<u16>> {
+    use proptest::prelude::*;
+    crate::prop_oneof![2 => Just(vec![]), 1 => proptest::collection::vec(any::<u16>(), 1..4)].boxed()
+}
